@@ -59,6 +59,29 @@ func main() {
 		os.Exit(cmdCheck(os.Args[2:]))
 	case "replay":
 		os.Exit(cmdReplay(os.Args[2:]))
+	case "wset":
+		cs, err := LoadContracts(repoRoot, []string{filepath.Join(verifRoot, "stdlib.contracts")})
+		if err != nil {
+			fmt.Println("ERROR", err)
+			os.Exit(1)
+		}
+		prog, err := LoadProg(repoRoot, []string{os.Args[2]}, "verif", cs)
+		if err != nil {
+			fmt.Println("ERROR", err)
+			os.Exit(1)
+		}
+		prog.computeWriteSets()
+		for fn, ws := range prog.wsets {
+			for _, n := range os.Args[3:] {
+				if fn.Name() == n {
+					if ws.all {
+						fmt.Printf("%s: ALL (%s)\n", fn.String(), ws.why)
+					} else {
+						fmt.Printf("%s: %v\n", fn.String(), ws.list())
+					}
+				}
+			}
+		}
 	case "parse":
 		cs, err := LoadContracts(repoRoot, []string{filepath.Join(verifRoot, "stdlib.contracts")})
 		if err != nil {
@@ -159,6 +182,10 @@ func cmdCheck(args []string) int {
 		}
 	}
 	sort.Strings(patterns)
+	if pkgs["./server"] {
+		// handlers call into most repository packages: load them all so that callee bodies and write sets are available
+		patterns = []string{"./server/..."}
+	}
 	prog, err := LoadProg(repoRoot, patterns, tags, cs)
 	if err != nil {
 		return fail("cannot load packages: " + err.Error())
@@ -175,6 +202,21 @@ func cmdCheck(args []string) int {
 		r := VerifyFunc(prog, fc)
 		if *verbose {
 			fmt.Printf("  generated %-50s %3d obligations %6.2fs %s\n", r.Name, len(r.Obls), time.Since(t0).Seconds(), r.Err)
+			for _, u := range r.Unmod {
+				fmt.Printf("      unmodelled: %s\n", u)
+			}
+			if r.VC != nil {
+				seen := map[string]bool{}
+				for _, h := range r.VC.havocLog {
+					if !seen[h] {
+						seen[h] = true
+						fmt.Printf("      havoc: %s\n", h)
+					}
+				}
+				for _, n := range r.Notes {
+					fmt.Printf("      note: %s\n", n)
+				}
+			}
 		}
 		results = append(results, r)
 	}
